@@ -1496,7 +1496,7 @@ def structured_strings(rng, n):
         L = codec.lang(lid)
         idx = rand_idx(rng, features=rng.choice([0, 0, 16, 8, 1]))
         toks = [L["wcb"][i] if rng.chance(1, 2) else L["wb"][i] for i in idx]
-        kind = rng.below(18)
+        kind = rng.below(19)
         sep = b" "
         if kind in (0, 14, 15):
             pass
@@ -1522,6 +1522,10 @@ def structured_strings(rng, n):
             if len(pool) >= 8:
                 P = codec.lang(l1)
                 toks = [P["wb"][rng.choice(pool)] for _ in range(16)]
+        elif kind == 18:        # letter case is not ignored: a capital first letter (of the phrase, of some word), a word in capitals
+            p_ = rng.choice([0, 0, rng.below(16)])
+            t = toks[p_]
+            toks[p_] = rng.choice([t[:1].upper() + t[1:], t.upper(), t[:-1] + t[-1:].upper()])
         elif kind == 5:
             toks = toks[:15]
             if rng.chance(1, 2):            # ... and a trailing separator: still fifteen
